@@ -22,11 +22,103 @@ use barter_integration::snapshot::Snapshot;
 use rust_decimal::Decimal;
 use vh::{engine_util::*, *};
 
+/// Static order attributes the tracking code never reads (`attr` op): they are part of the real
+/// API's input domain, so the harness varies them; the drivers ignore them.
+#[derive(Clone)]
+struct Attr {
+    side: Side,
+    kind: OrderKind,
+    tif: TimeInForce,
+    strategy: &'static str,
+    cancel_id: bool,
+}
+
+impl Default for Attr {
+    fn default() -> Self {
+        Attr {
+            side: Side::Buy,
+            kind: OrderKind::Limit,
+            tif: TimeInForce::GoodUntilCancelled { post_only: false },
+            strategy: "verif",
+            cancel_id: false,
+        }
+    }
+}
+
+thread_local! {
+    static ATTR: std::cell::RefCell<Attr> = std::cell::RefCell::new(Attr::default());
+    /// exchange index of every instrument index (`init n x` spreads the instruments over x exchanges)
+    static EXCHANGE_OF: std::cell::RefCell<Vec<usize>> = const { std::cell::RefCell::new(Vec::new()) };
+}
+
+fn exchange_of(instrument: usize) -> ExchangeIndex {
+    ExchangeIndex(EXCHANGE_OF.with(|e| e.borrow().get(instrument).copied().unwrap_or(0)))
+}
+
+fn attr() -> Attr {
+    ATTR.with(|a| a.borrow().clone())
+}
+
+/// `attr <B|S> <M|L> <G0|G1|D|F|I> <a|b> <n|s>`
+fn parse_attr(t: &[String]) -> Attr {
+    assert!(t.len() == 5, "bad attr");
+    Attr {
+        side: match t[0].as_str() {
+            "B" => Side::Buy,
+            "S" => Side::Sell,
+            o => panic!("bad side {o}"),
+        },
+        kind: match t[1].as_str() {
+            "M" => OrderKind::Market,
+            "L" => OrderKind::Limit,
+            o => panic!("bad kind {o}"),
+        },
+        tif: match t[2].as_str() {
+            "G0" => TimeInForce::GoodUntilCancelled { post_only: false },
+            "G1" => TimeInForce::GoodUntilCancelled { post_only: true },
+            "D" => TimeInForce::GoodUntilEndOfDay,
+            "F" => TimeInForce::FillOrKill,
+            "I" => TimeInForce::ImmediateOrCancel,
+            o => panic!("bad tif {o}"),
+        },
+        strategy: match t[3].as_str() {
+            "a" => "verif",
+            "b" => "other",
+            o => panic!("bad strategy {o}"),
+        },
+        cancel_id: match t[4].as_str() {
+            "n" => false,
+            "s" => true,
+            o => panic!("bad cancel id {o}"),
+        },
+    }
+}
+
+/// error kinds of a failed cancel / a failed open (`resp i c err <k>`, `X 2 <k> 0`); 0 is the kind
+/// every case used before the kinds were varied
+fn order_error(k: &str) -> OrderError {
+    use barter_execution::error::ConnectivityError;
+    use barter_instrument::{asset::AssetIndex, exchange::ExchangeId};
+    match k {
+        "0" => OrderError::Rejected(ApiError::OrderRejected("rejected".into())),
+        "1" => OrderError::Rejected(ApiError::OrderAlreadyCancelled),
+        "2" => OrderError::Rejected(ApiError::OrderAlreadyFullyFilled),
+        "3" => OrderError::Rejected(ApiError::RateLimit),
+        "4" => OrderError::Connectivity(ConnectivityError::Timeout),
+        "5" => OrderError::Connectivity(ConnectivityError::ExchangeOffline(ExchangeId::Mock)),
+        "6" => OrderError::Connectivity(ConnectivityError::Socket("closed".into())),
+        "7" => OrderError::Rejected(ApiError::BalanceInsufficient(AssetIndex(0), "low".into())),
+        "8" => OrderError::Rejected(ApiError::InstrumentInvalid(InstrumentIndex(0), "bad".into())),
+        "9" => OrderError::Rejected(ApiError::AssetInvalid(AssetIndex(0), "bad".into())),
+        other => panic!("bad error kind {other}"),
+    }
+}
+
 fn key(i: usize, cid: &str) -> OrderKey<ExchangeIndex, InstrumentIndex> {
     OrderKey {
-        exchange: ExchangeIndex(0),
+        exchange: exchange_of(i),
         instrument: InstrumentIndex(i),
-        strategy: StrategyId::new("verif"),
+        strategy: StrategyId::new(attr().strategy),
         cid: ClientOrderId::new(cid),
     }
 }
@@ -53,9 +145,7 @@ fn parse_state(t: &[String]) -> OrderState {
                 time_exchange: time_ms(0),
             }),
             "1" => OrderState::fully_filled(),
-            "2" => OrderState::inactive(InactiveOrderState::OpenFailed(OrderError::Rejected(
-                ApiError::OrderRejected("rejected".into()),
-            ))),
+            "2" => OrderState::inactive(InactiveOrderState::OpenFailed(order_error(&t[2]))),
             "3" => OrderState::expired(),
             other => panic!("bad inactive kind {other}"),
         },
@@ -68,11 +158,11 @@ fn parse_snap(t: &[String], map: &[usize]) -> (usize, Order) {
     let i: usize = t[0].parse().unwrap();
     let order = Order {
         key: key(map[i], &t[1]),
-        side: Side::Buy,
+        side: attr().side,
         price: parse_dec(&t[3]),
         quantity: parse_dec(&t[2]),
-        kind: OrderKind::Limit,
-        time_in_force: TimeInForce::GoodUntilCancelled { post_only: false },
+        kind: attr().kind,
+        time_in_force: attr().tif,
         state: parse_state(&t[4..8]),
     };
     (i, order)
@@ -146,13 +236,27 @@ fn run() {
         let mut built: Option<Built> = None;
         // label -> InstrumentIndex position
         let mut map: Vec<usize> = vec![];
+        ATTR.with(|a| *a.borrow_mut() = Attr::default());
+        EXCHANGE_OF.with(|e| e.borrow_mut().clear());
         for op in case.ops.iter() {
             lines.push("@".into());
+            if op[0] == "attr" {
+                let a = parse_attr(&op[1..]);
+                ATTR.with(|c| *c.borrow_mut() = a);
+                match built.as_ref() {
+                    Some(b) => observe(&b.engine, &map, lines),
+                    None => {}
+                }
+                continue;
+            }
             if op[0] == "init" {
                 let n: usize = op[1].parse().unwrap();
+                // `init n x`: instrument label i lives on exchange label i % x (default: one exchange)
+                let x: usize = op.get(2).map(|x| x.parse().unwrap()).unwrap_or(1);
+                assert!((1..=EXCHANGES.len()).contains(&x) && op.len() <= 3, "bad init");
                 let names: Vec<String> = (0..n).map(|i| format!("a{i}")).collect();
                 let defs: Vec<(usize, &str, &str)> =
-                    names.iter().map(|b| (0usize, b.as_str(), "usdt")).collect();
+                    names.iter().enumerate().map(|(i, b)| (i % x, b.as_str(), "usdt")).collect();
                 let instruments = build_instruments(&defs);
                 let b = build_engine(&instruments, &[], TradingState::Disabled);
                 map = (0..n)
@@ -162,10 +266,16 @@ fn run() {
                             .instruments
                             .0
                             .values()
-                            .position(|s| s.instrument.name_internal.name().as_str() == format!("a{i}_usdt_x0"))
+                            .position(|s| {
+                                s.instrument.name_internal.name().as_str() == format!("a{i}_usdt_x{}", i % x)
+                            })
                             .unwrap()
                     })
                     .collect();
+                EXCHANGE_OF.with(|e| {
+                    *e.borrow_mut() =
+                        b.engine.state.instruments.0.values().map(|s| s.instrument.exchange.index()).collect()
+                });
                 built = Some(b);
                 observe(&built.as_ref().unwrap().engine, &map, lines);
                 continue;
@@ -174,6 +284,7 @@ fn run() {
             // out-of-range instrument labels: the code panics, both sides say so
             let labels: Vec<usize> = match op[0].as_str() {
                 "full" => op[1..].chunks(8).map(|c| c[0].parse().unwrap()).collect(),
+                "empty" => op[1..].iter().map(|l| l.parse().unwrap()).collect(),
                 _ => vec![op[1].parse().unwrap()],
             };
             if labels.iter().any(|l| *l >= map.len()) {
@@ -186,11 +297,11 @@ fn run() {
                     engine.state.record_in_flight_open(&OrderRequestOpen {
                         key: key(map[i], &op[2]),
                         state: RequestOpen {
-                            side: Side::Buy,
+                            side: attr().side,
                             price: parse_dec(&op[4]),
                             quantity: parse_dec(&op[3]),
-                            kind: OrderKind::Limit,
-                            time_in_force: TimeInForce::GoodUntilCancelled { post_only: false },
+                            kind: attr().kind,
+                            time_in_force: attr().tif,
                         },
                     });
                 }
@@ -198,13 +309,15 @@ fn run() {
                     let i: usize = op[1].parse().unwrap();
                     engine.state.record_in_flight_cancel(&OrderRequestCancel {
                         key: key(map[i], &op[2]),
-                        state: RequestCancel { id: None },
+                        state: RequestCancel {
+                            id: attr().cancel_id.then(|| OrderId::new("9")),
+                        },
                     });
                 }
                 "snap" => {
-                    let (_, order) = parse_snap(&op[1..9], &map);
+                    let (i, order) = parse_snap(&op[1..9], &map);
                     engine.state.update_from_account(&AccountEvent {
-                        exchange: ExchangeIndex(0),
+                        exchange: exchange_of(map[i]),
                         kind: AccountEventKind::OrderSnapshot(Snapshot(order)),
                     });
                 }
@@ -216,10 +329,11 @@ fn run() {
                             time_exchange: time_ms(0),
                         })
                     } else {
-                        Err(OrderError::Rejected(ApiError::OrderRejected("no".into())))
+                        assert!(op[3] == "err", "bad resp");
+                        Err(order_error(op.get(4).map(|s| s.as_str()).unwrap_or("0")))
                     };
                     engine.state.update_from_account(&AccountEvent {
-                        exchange: ExchangeIndex(0),
+                        exchange: exchange_of(map[i]),
                         kind: AccountEventKind::OrderCancelled(
                             barter_execution::order::request::OrderResponseCancel {
                                 key: key(map[i], &op[2]),
@@ -242,12 +356,34 @@ fn run() {
                             }),
                         }
                     }
+                    // the event is attributed to the exchange of the first instrument it names
+                    let ex = labels.first().map(|l| exchange_of(map[*l])).unwrap_or(ExchangeIndex(0));
                     engine.state.update_from_account(&AccountEvent {
-                        exchange: ExchangeIndex(0),
+                        exchange: ex,
                         kind: AccountEventKind::Snapshot(AccountSnapshot {
-                            exchange: ExchangeIndex(0),
+                            exchange: ex,
                             balances: vec![],
                             instruments: groups,
+                        }),
+                    });
+                }
+                "empty" => {
+                    // an account snapshot naming instruments with NO orders (an exchange with nothing
+                    // open there): says nothing about any order
+                    // the event is attributed to the exchange of the first instrument it names
+                    let ex = labels.first().map(|l| exchange_of(map[*l])).unwrap_or(ExchangeIndex(0));
+                    engine.state.update_from_account(&AccountEvent {
+                        exchange: ex,
+                        kind: AccountEventKind::Snapshot(AccountSnapshot {
+                            exchange: ex,
+                            balances: vec![],
+                            instruments: op[1..]
+                                .iter()
+                                .map(|l| InstrumentAccountSnapshot {
+                                    instrument: InstrumentIndex(map[l.parse::<usize>().unwrap()]),
+                                    orders: vec![],
+                                })
+                                .collect(),
                         }),
                     });
                 }
@@ -357,7 +493,129 @@ fn generate(seed: u64, n_cases: usize, tier: &str) {
             out.line(format!("snap {} 1 10 100 O 7 1 0", n + 1)); // unknown instrument
         }
     }
+    // ---- input-domain family (separately seeded, so the cases above stay what they were) ----------
+    // classes of the real API's input domain the random cases above never produce: every static order
+    // attribute (side, kind, time in force, strategy, cancel-by-order-id), every error kind of a
+    // failed cancel / failed open, decimal magnitudes 1e-8 .. 1e12 with `filled` equal to the quantity
+    // in another scale, zero and negative quantities / prices, negative / far-apart exchange
+    // timestamps, account snapshots that name an instrument with no orders, entries of one account
+    // snapshot with differing quantity / price, many client order ids on up to three instruments,
+    // instruments spread over two or three exchanges (`init n x`)
+    let mut rng = Rng::new(seed ^ 0xD0_C01);
+    let extra = n_cases / 4 + 2;
+    for k in 0..extra {
+        id += 1;
+        out.case(format!("d{id}"));
+        let n = rng.range(1, 3) as usize;
+        // two cases in five: the instruments are spread over 2-3 exchanges (label i on exchange i % x)
+        if k % 5 >= 3 {
+            out.line(format!("init {n} {}", 2 + (k / 5) % 2));
+        } else {
+            out.line(format!("init {n}"));
+        }
+        let cids = if k % 8 == 7 { 30 } else { rng.range(1, 4) as u64 };
+        let wide_num = k % 2 == 0; // magnitudes / signs
+        let wide_time = k % 3 == 0;
+        let len = rng.range(1, if tier == "thorough" { 60 } else { 30 }) * if cids == 30 { 3 } else { 1 };
+        out.line(gen_attr(&mut rng));
+        for _ in 0..len {
+            if rng.chance(6) {
+                out.line(gen_attr(&mut rng));
+            }
+            out.line(gen_dom_op(&mut rng, n, cids, wide_num, wide_time));
+        }
+    }
     out.flush();
+}
+
+fn gen_attr(rng: &mut Rng) -> String {
+    format!(
+        "attr {} {} {} {} {}",
+        rng.pick(&["B", "S"]),
+        rng.pick(&["M", "L"]),
+        rng.pick(&["G0", "G1", "D", "F", "I"]),
+        rng.pick(&["a", "b"]),
+        rng.pick(&["n", "s"])
+    )
+}
+
+/// (quantity, half, quantity + 1, the quantity written in another scale)
+const QUANTITIES: &[(&str, &str, &str, &str)] = &[
+    ("10", "5", "11", "10.0"),
+    ("4", "2", "5", "4.00"),
+    ("0.5", "0.25", "1.5", "0.50"),
+    ("1.50", "0.75", "2.5", "1.5"),
+    ("0.00000001", "0.000000005", "1.00000001", "0.000000010"),
+    ("1000000000000", "500000000000", "1000000000001", "1000000000000.0"),
+    ("0.000001", "0.0000005", "1.000001", "0.0000010"),
+    ("0", "0", "1", "0.0"),
+    ("-4", "-2", "-3", "-4.0"),
+];
+const PRICES: &[&str] = &["100", "101", "0.00000001", "1000000000000", "0.5", "0", "-1"];
+const TIMES: &[i64] = &[-86_400_000, -3, -1, 0, 1, 2, 3, 1_000, 86_400_000, 3_000_000_000_000];
+
+fn gen_dom_qp(rng: &mut Rng, wide_num: bool) -> (usize, String) {
+    let qi = if wide_num { rng.below(QUANTITIES.len() as u64) as usize } else { rng.below(2) as usize };
+    let p = if wide_num { *rng.pick(PRICES) } else { *rng.pick(&["100", "101"]) };
+    (qi, p.to_string())
+}
+
+fn gen_dom_state(rng: &mut Rng, qi: usize, wide_time: bool) -> String {
+    let (q, half, plus, alt) = QUANTITIES[qi];
+    let t = if wide_time { *rng.pick(TIMES) } else { rng.range(0, 6) };
+    let id = rng.range(1, 2);
+    let filled = match rng.below(100) {
+        0..=24 => "0",
+        25..=49 => half,
+        50..=69 => q,
+        70..=84 => alt,
+        85..=92 => plus,
+        _ => "-1",
+    };
+    let r = rng.below(100);
+    if r < 60 {
+        format!("O {id} {t} {filled}")
+    } else if r < 70 {
+        "F 0 0 0".into()
+    } else {
+        match rng.below(4) {
+            2 => format!("X 2 {} 0", rng.below(10)),
+            k => format!("X {k} 0 0"),
+        }
+    }
+}
+
+fn gen_dom_op(rng: &mut Rng, n: usize, cids: u64, wide_num: bool, wide_time: bool) -> String {
+    let i = rng.below(n as u64);
+    let c = rng.below(cids) + 1;
+    let (qi, p) = gen_dom_qp(rng, wide_num);
+    let q = QUANTITIES[qi].0;
+    match rng.below(100) {
+        0..=17 => format!("open {i} {c} {q} {p}"),
+        18..=32 => format!("cancel {i} {c}"),
+        33..=69 => format!("snap {i} {c} {q} {p} {}", gen_dom_state(rng, qi, wide_time)),
+        70..=77 => format!("resp {i} {c} ok"),
+        78..=86 => format!("resp {i} {c} err {}", rng.below(10)),
+        87..=90 => {
+            let k = rng.range(1, 3);
+            let mut s = String::from("empty");
+            for _ in 0..k {
+                s += &format!(" {}", rng.below(n as u64));
+            }
+            s
+        }
+        _ => {
+            let k = rng.range(0, 8);
+            let mut s = String::from("full");
+            for _ in 0..k {
+                let i = rng.below(n as u64);
+                let c = rng.below(cids) + 1;
+                let (qi, p) = gen_dom_qp(rng, wide_num);
+                s += &format!(" {i} {c} {} {p} {}", QUANTITIES[qi].0, gen_dom_state(rng, qi, wide_time));
+            }
+            s
+        }
+    }
 }
 
 fn main() {
